@@ -118,14 +118,25 @@ impl<'a> G<'a> {
                 }
             }
             F::V => {
-                let c = self.r.weighted(&[3, 3, 3, 2, 2, 1, 2, 2, 1, 1]);
+                let c = self.r.weighted(&[3, 3, 3, 2, 2, 1, 2, 2, 1, 1, 1, 2]);
                 match c {
+                    10 => {
+                        let a = self.r.below(2);
+                        let f = self.fault(self.n.saturating_sub(1));
+                        self.push(Op::abf(OpK::VReduce, a, 0, f));
+                        self.form = F::Gone;
+                    }
+                    11 => {
+                        let a = self.r.below(48);
+                        self.push(Op::a(OpK::VKindConv, a));
+                    }
                     9 => {
                         let f = self.fault(self.n * self.w);
-                        self.push(Op::abf(OpK::VClone, 0, 0, f));
+                        let a = self.r.below(2);
+                        self.push(Op::abf(OpK::VClone, a, 0, f));
                     }
                     7 => {
-                        let a = self.r.below(3);
+                        let a = self.r.below(4);
                         let f = self.fault(self.n);
                         self.push(Op::abf(OpK::VMap, a, 0, f));
                         if f > 0 && (f as usize) <= self.n {
@@ -160,7 +171,8 @@ impl<'a> G<'a> {
                     }
                     5 => {
                         let a = self.r.below(4);
-                        if (a == 0 || a == 3) && self.faulty && self.faults_left > 0 && self.r.chance(1, 3) {
+                        if (a == 0 || a == 3 || a == 1) && self.faulty && self.faults_left > 0 && self.r.chance(1, 3) {
+                            // F8: the formatter sink fails at its b-th write; F9 (a = 1): the hasher unwinds at its b-th write
                             self.faults_left -= 1;
                             let b = self.r.range(1, 3 * (self.n * self.w) as u32 + 8);
                             self.push(Op::abf(OpK::VObserve, a, b, 0));
@@ -191,12 +203,12 @@ impl<'a> G<'a> {
 
     fn from_iter_stub(&mut self) {
         let n = self.n;
-        let mode = if self.faulty { self.r.weighted(&[2, 3, 2, 3, 2]) as u32 } else { 0 };
+        let mode = if self.faulty { self.r.weighted(&[2, 3, 2, 3, 2, 1, 2]) as u32 } else { 0 };
         let j = self.r.below(n as u32 + 2);
         let hint = if self.faulty && self.r.chance(1, 3) { self.r.below(4) } else { 0 };
         let f = if mode != 3 { self.fault(n * self.w) } else { 0 };
         self.push(Op::abf(OpK::FromIterStub, mode, j | hint << 8, f));
-        let src_panics = mode == 3 && (1 + j as usize % (n + 2)) <= n;
+        let src_panics = (mode == 3 && (1 + j as usize % (n + 2)) <= n) || mode == 6;
         let def_panics = f > 0 && (f as usize) <= n * self.w;
         self.form = if src_panics || def_panics { F::Gone } else { F::V };
     }
@@ -254,8 +266,8 @@ impl<'a> G<'a> {
             }
         }
         let cbs = self.len * self.w * if (2..=4).contains(&a) { 2 } else { 1 };
-        if (a == 0 || a == 5) && self.faulty && self.faults_left > 0 && self.r.chance(1, 4) {
-            // F8: the formatter sink fails at its k-th write
+        if (a == 0 || a == 5 || a == 1) && self.faulty && self.faults_left > 0 && self.r.chance(1, 4) {
+            // F8: the formatter sink fails at its k-th write; F9 (a = 1): the hasher unwinds at its k-th write
             self.faults_left -= 1;
             let b = self.r.range(1, 3 * cbs as u32 + 8);
             self.push(Op::abf(OpK::Observe, a, b, 0));
@@ -379,7 +391,8 @@ impl<'a> G<'a> {
             7 => self.inner_step(),
             _ => {
                 let a = self.r.below(8);
-                self.push(Op::a(OpK::CloneProbe, a));
+                let f = self.fault(self.len.max(self.n) * self.w);
+                self.push(Op::abf(OpK::CloneProbe, a, 0, f));
             }
         }
     }
@@ -546,7 +559,8 @@ impl<'a> G<'a> {
                     2 => self.push(Op::new(OpK::Len)),
                     _ => {
                         let a = self.r.below(8);
-                        self.push(Op::a(OpK::CloneProbe, a));
+                        let f = self.fault(self.len.max(self.n) * self.w);
+                        self.push(Op::abf(OpK::CloneProbe, a, 0, f));
                     }
                 }
             }
@@ -630,14 +644,21 @@ impl<'a> G<'a> {
                         mf = MF::Flat;
                     }
                 }
-                MF::M => match self.r.weighted(&[4, 4, 2, 2, 2, 2, 2, 2, 2, 2, 1]) {
+                MF::M => match self.r.weighted(&[4, 4, 2, 2, 2, 2, 2, 2, 2, 2, 1, if nm > 2 { 1 } else { 0 }]) {
+                    11 => {
+                        // truncating conversion to a smaller matrix type; the run ends here
+                        let a = self.r.below(2);
+                        self.push(Op::a(OpK::MShrink, a));
+                        return false;
+                    }
                     10 => {
                         let f = self.fault(nm * nm);
-                        self.push(Op::abf(OpK::MClone, 0, 0, f));
+                        let a = self.r.below(2);
+                        self.push(Op::abf(OpK::MClone, a, 0, f));
                     }
                     8 => {
                         let a = self.r.below(4);
-                        if (a == 0 || a == 3) && self.faulty && self.faults_left > 0 && self.r.chance(1, 3) {
+                        if (a == 0 || a == 3 || a == 1) && self.faulty && self.faults_left > 0 && self.r.chance(1, 3) {
                             self.faults_left -= 1;
                             let b = self.r.range(1, 3 * (nm * nm) as u32 + 8);
                             self.push(Op::abf(OpK::MObserve, a, b, 0));
